@@ -126,7 +126,7 @@ def run_unit(uname, ucfg, tier, repo, verif, build, log):
         return res
     declared = {h: c for h, c in allh.items() if tier == 'thorough' or c.get('tier', 'quick') == 'quick'}
     flags = ucfg.get('flags', ['-Z', 'function-contracts', '-Z', 'stubbing'])
-    tdir = os.path.join(build, 'kani-target', uname)
+    tdir = os.path.join(build, 'kani-target', ucfg.get('target_key', uname))
     cmd = ['cargo', 'kani'] + flags + ['-Z', 'unstable-options', '--target-dir', tdir, '-j', str(ucfg.get('jobs', 12)),
                                         '--output-format', 'terse', '--harness-timeout', str(ucfg.get('harness_timeout', 300))]
     jpath = os.path.join(build, 'logs', f'kani_{uname}.json')
